@@ -848,7 +848,19 @@ class FileStorage(
                 try:
                     tid = self._tid
                     if f is not None:
-                        f(tid)
+                        try:
+                            f(tid)
+                        except BaseException:
+                            # Nothing is committed yet: drop the voted data
+                            # as tpc_abort() would.  We hold the write lock,
+                            # so the reader pool is emptied directly.
+                            if self._nextpos:
+                                self._file.truncate(self._pos)
+                                self._files.empty()
+                                self._nextpos = 0
+                            self._blob_tpc_abort()
+                            self._clear_temp()
+                            raise
                     self._finish(tid, *self._ude)
                     self._clear_temp()
                 finally:
